@@ -320,6 +320,27 @@ class World:
             raise Mismatch('func/%s/inaccuracy-not-propagated' % name, {'a': a.flags, 'z': list(C.flags(z))})
         self.adopt(z)
 
+    def op_derive_like(self, op):
+        """A new object built from plain values with like= / template= of an existing (possibly flagged) object:
+        its flags are those of its own first write only."""
+        t = self.pick(op['i'])
+        if t is None:
+            return
+        F = C.Fxp()
+        f = t.fmt[2]
+        x4s = resolve_rel(t.fmt, op['rel'])
+        vals = [C.v_from_x4(x4s[0], f)] if op.get('scalar') else [C.v_from_x4(x, f) for x in x4s]
+        obj = float(vals[0]) if op.get('scalar') else np.array([float(v) for v in vals])
+        z = F(obj, like=t.x) if op['how'] == 'like' else F(obj, template=t.x)
+        q = self.quantize(t, vals)
+        want = [any(u[1] for u in q), any(u[2] for u in q), any(u[3] for u in q)]
+        if list(C.flags(z)) != want:
+            which = [n for n, a, b in zip(('overflow', 'underflow', 'inaccuracy'), C.flags(z), want) if bool(a) != bool(b)]
+            raise Mismatch('derive_like/%s/flags/%s' % (op['how'], '+'.join(which)), {'template_flags': t.flags, 'expected': want, 'got': list(C.flags(z))})
+        if C.flat(C.codes(z)) != [u[0] for u in q]:
+            raise Mismatch('derive_like/%s/codes' % op['how'], {'expected': [u[0] for u in q], 'got': C.flat(C.codes(z))})
+        self.adopt(z, modes=t.modes)
+
     def op_derive(self, op):
         a = self.pick(op['i'])
         if a is None:
@@ -488,6 +509,9 @@ def op_strategies():
         'func': st.fixed_dictionaries({'i': st.integers(0, 7), 'name': st.sampled_from(['sum', 'cumsum', 'max', 'min']), 'numpy': st.booleans(),
                                        'out': st.booleans()}),
         'derive': st.fixed_dictionaries({'i': st.integers(0, 7), 'like': st.booleans()}),
+        'derive_like': st.fixed_dictionaries({'i': st.integers(0, 7), 'how': st.sampled_from(['like', 'template']), 'scalar': st.booleans(),
+                                              'rel': st.lists(st.tuples(st.sampled_from(['hi', 'lo', 'zero', 'mid', 'mid', 'far+', 'far-']), st.integers(-6, 6)).map(list),
+                                                              min_size=1, max_size=3)}),
     }
 
 
